@@ -20,7 +20,7 @@ def run(chk):
     total = 0
     nontrivial = 0
     bad = []
-    for name in ("block", "quoted"):
+    for name in ("block", "blockws", "quoted"):
         cases = os.path.join(work, "cases.ndjson")
         n, r = vlib.tlc_emit_cases(chk, "MC_Strings", "MC_Strings_%s%s.cfg" % (name, sfx), cases, timeout=6000)
         summary, b = vlib.replay_cases(chk, ["str-replay"], cases)
@@ -57,7 +57,8 @@ def run(chk):
     chk.cov["evaluations"] = total + len(rows)
     chk.cov["distinct_nontrivial"] = nontrivial
     chk.cov["exhaustive"] = True
-    chk.cov["rule"] = ("All literal interiors up to the bound over {space, tab, LF, CR, a, quote, backslash, é} (block) and "
+    chk.cov["rule"] = ("All literal interiors up to the bound over {space, tab, LF, CR, a, quote, backslash, é} (block), "
+                       "{space, tab, LF, a, NBSP, U+3000, BOM} (blockws: Unicode white space that is NOT GraphQL WhiteSpace) and "
                        "{a, quote, backslash, u, 0, A, n, /, é} (quoted) that are lexically valid, each in 22 positions; plus "
                        "seeded random literals. Non-trivial = the value differs from the raw interior.")
     chk.assumptions += ["Strings.tla transcribes section 2.9.4 (String Value) of the October 2021 specification"]
